@@ -135,6 +135,10 @@ class DictDecoder:
                     raise ParserError(f"Unknown property {clazz.__qualname__}.{key}")
                 continue
 
+            if var.wrapper and value is None:
+                # The encoder writes the wrapper of a field with no value as null
+                continue
+
             if var.wrapper:
                 if self.config.fail_on_unknown_properties:
                     for name in value:
@@ -461,6 +465,9 @@ class DictDecoder:
                     # The member values of a xs:list enumeration are arrays
                     return var
             elif var.wrapper == key:
+                if value is None:
+                    return var
+
                 if isinstance(value, dict) and var.local_name in value:
                     val = value[var.local_name]
                     var_is_list = var.list_element or var.tokens
